@@ -193,6 +193,7 @@ func (e *Engine) verifyFunc(fn *ssa.Function, c *Contract, prop string) (rep *Fu
 		rep.CoverPCs = append(rep.CoverPCs, o.st.pc)
 		rep.CoverSites = append(rep.CoverSites, o.site)
 		rep.CoverTraces = append(rep.CoverTraces, o.st.trace)
+		var setVals []*Term
 		ovars := map[string]SVal{}
 		for k, v := range vars {
 			ovars[k] = v
@@ -211,6 +212,19 @@ func (e *Engine) verifyFunc(fn *ssa.Function, c *Contract, prop string) (rep *Fu
 				}
 			}
 		}
+		// ghost assignments of the contract take effect at the return, before the postconditions are read
+		for _, sc := range c.Sets {
+			g := e.db.Ghosts[sc.Ghost]
+			if g == nil {
+				unsupp("sets: unknown ghost %s", sc.Ghost)
+			}
+			env := &SpecEnv{e: e, pre: e.entry, post: e.entry, vars: ovars, pkg: pkg, paramsFirst: true, allocBefore: e.entry.allocTerm(), params: vars, exit: o.st}
+			setVals = append(setVals, env.eval(sc.E).V.T)
+		}
+		for j, sc := range c.Sets {
+			o.st.heapSet("G:"+sc.Ghost, setVals[j])
+		}
+		setVals = setVals[:0]
 		for i, en := range c.Ensures {
 			if len(en.Props) > 0 && prop != "" && !contains(en.Props, prop) {
 				continue
@@ -269,28 +283,33 @@ func (e *Engine) resolveFrame(c *Contract, vars map[string]SVal, pkg *types.Pack
 			fi.all = true
 		case m == "ghosts":
 			fi.ghosts = true
+		case strings.HasPrefix(m, "ghosts except "):
+			for _, name := range e.ghostNames(m) {
+				fi.keys["G:"+name] = true
+			}
 		case m == "syncmaps":
 			fi.keys["SM:dom"], fi.keys["SM:tag"], fi.keys["SM:val"] = true, true, true
 		case strings.HasPrefix(m, "* except "):
 			// whole Go heap except the fields of one struct type: those get frame obligations
-			tn := strings.TrimSpace(strings.TrimPrefix(m, "* except "))
-			i := strings.LastIndex(tn, ".")
-			if i < 0 {
-				unsupp("modifies * except pkg.Type")
-			}
-			T := e.lookupType(tn[:i], tn[i+1:], pkg)
-			if T == nil {
-				unsupp("modifies * except %s: type not found", tn)
-			}
 			fi.all = true
-			fi.except = append(fi.except, "F:"+typeKey(T)+".")
-			for _, l := range leaves(T) {
-				k := fieldKey(T, l.path)
-				noteLeaf(k, l)
-				if _, ok := heapSorts[k]; !ok {
-					heapSorts[k] = arrSort(SInt, l.sort)
+			for _, tn := range exceptTypes(m) {
+				i := strings.LastIndex(tn, ".")
+				if i < 0 {
+					unsupp("modifies * except pkg.Type")
 				}
-				fi.exceptKeys = append(fi.exceptKeys, k)
+				T := e.lookupType(tn[:i], tn[i+1:], pkg)
+				if T == nil {
+					unsupp("modifies * except %s: type not found", tn)
+				}
+				fi.except = append(fi.except, "F:"+typeKey(T)+".")
+				for _, l := range leaves(T) {
+					k := fieldKey(T, l.path)
+					noteLeaf(k, l)
+					if _, ok := heapSorts[k]; !ok {
+						heapSorts[k] = arrSort(SInt, l.sort)
+					}
+					fi.exceptKeys = append(fi.exceptKeys, k)
+				}
 			}
 		case m == "big":
 			fi.keys["BigVal"] = true
@@ -388,14 +407,14 @@ func (e *Engine) frameObligations(c *Contract, key string, st *State, vars map[s
 	if fi == nil {
 		return
 	}
-	if fi.all && fi.ghosts {
+	if fi.all && fi.ghosts && len(fi.exceptKeys) == 0 {
 		return
 	}
 	if fi.all {
 		// `modifies *` is the whole Go heap; ghost variables are spared when a caller applies such a contract,
 		// so here every ghost the contract does not list must be shown unchanged
 		for _, k := range sortedKeys(st.heap) {
-			if !strings.HasPrefix(k, "G:") || strings.HasPrefix(k, "G:$") || fi.keys[k] {
+			if !strings.HasPrefix(k, "G:") || strings.HasPrefix(k, "G:$") || fi.keys[k] || fi.ghosts {
 				continue
 			}
 			final := st.heap[k]
@@ -422,7 +441,7 @@ func (e *Engine) frameObligations(c *Contract, key string, st *State, vars map[s
 			e.emit(&Obligation{Kind: "frame", Fn: key, Label: shortHeapKey(k), PC: st.pc, Goal: e.frameGoal(st, k), Src: "unchanged " + k + " (modifies * except)", Trace: st.trace})
 		}
 		for k := range st.hv {
-			if strings.HasPrefix(k, "G:") && !strings.HasPrefix(k, "G:$") && !fi.keys[k] {
+			if strings.HasPrefix(k, "G:") && !strings.HasPrefix(k, "G:$") && !fi.keys[k] && !fi.ghosts {
 				if _, inHeap := st.heap[k]; !inHeap {
 					if srt, known := heapSorts[k]; known {
 						e.emit(&Obligation{Kind: "frame", Fn: key, Label: shortHeapKey(k), PC: st.pc, Goal: Eq(st.heapGet(k, srt), e.entry.heapGet(k, srt)), Src: "ghost " + k[2:] + " is not listed in modifies and must be unchanged", Trace: st.trace})
